@@ -314,6 +314,34 @@ impl Ctx {
 		}
 	}
 
+	/// A failure with this signature was observed inside a generated case. If
+	/// it is a listed open finding: count it (class known_finding_hits:<sig>,
+	/// printed as a KNOWN-FINDING line by the parent process at the end) and
+	/// return true so the caller can end the case quietly and the search goes on.
+	pub fn known_hit(&self, signature: &str) -> bool {
+		if self.is_known(signature) {
+			self.ev.class(&format!("known_finding_hits:{}", signature));
+			self.ev.0.lock().unwrap().excluded_known += 1;
+			true
+		} else {
+			false
+		}
+	}
+
+	/// print KNOWN-FINDING lines for findings hit inside child processes / cases
+	pub fn print_known_hits(&self) {
+		let keys: Vec<String> = self.ev.0.lock().unwrap().classes.keys().filter(|k| k.starts_with("known_finding_hits:")).cloned().collect();
+		for k in keys {
+			let sig = &k["known_finding_hits:".len()..];
+			if let Some(kn) = self.known.iter().find(|x| x.property == self.id && x.status == "open" && x.signature == sig) {
+				let mut p = self.known_printed.lock().unwrap();
+				if p.insert(sig.to_string()) {
+					println!("KNOWN-FINDING: property={} {} [{}]", self.id, kn.what, kn.signature);
+				}
+			}
+		}
+	}
+
 	pub fn violated(&self) -> bool {
 		self.violations.load(Ordering::SeqCst) > 0
 	}
